@@ -490,3 +490,19 @@ Definition go_fill_buf (buf got : list N) : list N := got ++ skipn (List.length 
 Definition go_max_alloc : Z := 281474976710656.   (* runtime.maxAlloc on linux/amd64 *)
 Definition go_make_bytes (n : Z) : list N := repeat 0%N (Z.to_nat n).
 Definition go_make_ok (n : Z) : bool := (0 <=? n) && (n <=? go_max_alloc).
+
+(** ** The abstract [io.Writer]: what has been written, and what the next
+    [Write] calls will answer ([None] / exhausted script: all bytes taken, no
+    error; [Some e]: nothing taken, error [e]). *)
+Record go_writer := mkWriter { wr_out : list N; wr_script : list go_error }.
+
+Definition wr_write (w : go_writer) (bs : list N) : Z * go_error * go_writer :=
+  match wr_script w with
+  | Some e :: s => (0, Some e, mkWriter (wr_out w) s)
+  | None :: s => (go_len bs, None, mkWriter (wr_out w ++ bs) s)
+  | [] => (go_len bs, None, mkWriter (wr_out w ++ bs) [])
+  end.
+
+(** [binary.LittleEndian.PutUint64(buf, v)]: the first 8 bytes of [buf]. *)
+Definition binary_LE_PutUint64 (buf : list N) (v : Z) : list N :=
+  if 8 <=? go_len buf then le64 (Z.to_N (wrap_u64 v)) ++ skipn 8 buf else go_junk buf.
